@@ -23,7 +23,7 @@ RULE = ("cases = histories: 1..4 CREATE TABLE (same name in 2-3 schemas and with
         "which must raise. Non-trivial = >= 1 ALTER/INDEX on a script with >= 2 tables or a re-spelled reference; distinct = text."
         " Added after seeded defects: index-only columns called like ALTER keywords, IF EXISTS / ONLY noise words, spelled rename targets, every 4th history also in a dialect mode, "
         "every ordered triple of statement kinds on one 2-3 column table (quick: 8 kinds, thorough: all 15; more column draws when a kind repeats), multi-column foreign keys whose "
-        "referenced columns are called like the key columns in another order, renames that only re-spell the old name.")
+        "referenced columns are called like the key columns in another order, renames that only re-spell the old name, every 7th random history without any ';' (possible since fix F18).")
 ASSUMPTIONS = ["columns named in ADD UNIQUE / ADD DEFAULT .. FOR / index lists use the column's current spelling (the property claims quoting/case-insensitive matching for tables, and DROP/RENAME/MODIFY COLUMN)",
                "alter.columns records are checked by number (an added column is the same object as the table column, so a later RENAME shows in it) plus the full FK records",
                "ADD column only with name/type/size/DEFAULT"]
@@ -265,6 +265,10 @@ def compare(ent, t):
 def check_case(ctx, case):
     ctx.evaluated()
     text = "\n".join(case["stmts"]) + "\n"
+    if case.get("unterminated"):
+        # no ';' at all: every statement is closed by the start of the next one (each begins a line with CREATE / ALTER), the last by the end of input
+        text = "\n".join(st[:-1] if st.endswith(";") else st for st in case["stmts"]) + ("\n" if case["unterminated"] == "newline" else "")
+        ctx.obs["histories_without_terminators"] += 1
     if case["n_alter"] and (case["n_tables"] > 1 or case["respelled"]):
         ctx.nontrivial_case(digest(text))
     nfr = STATE.counters.get("reg_frame_violation", 0)
@@ -307,11 +311,12 @@ def check_case(ctx, case):
     ctx.obs["alter_index_statements"] += case["n_alter"]
     ctx.obs["tables_compared"] += len(model)
     # the undefined-table statement must raise (any exception); silence is the violation
-    g = parse(text + case["ghost"] + "\n", {"silent": False})
+    gtext = text.rstrip("\n") + "\n" + case["ghost"] + "\n"
+    g = parse(gtext, {"silent": False})
     ctx.obs["undefined_table_statements"] += 1
     if g[0] == "ok":
         ctx.violation("undefined_table_accepted", dict(case, with_ghost=True), {"statement": case["ghost"], "result_tables": [[e.get("schema"), e.get("table_name")] for e in entities(g[1])]})
-    g2 = parse(text + case["ghost"] + "\n")
+    g2 = parse(gtext)
     if g2[0] == "ok":
         ctx.violation("undefined_table_accepted_silent", dict(case, with_ghost=True), {"statement": case["ghost"]})
 
@@ -348,6 +353,8 @@ def run_shard(ctx):
     for j in range(ctx.budget(1500, 50000)):
         case = gen_history(rng)
         case["gen"] = "random"
+        if j % 7 == 3:
+            case["unterminated"] = rng.choice(["newline", "no_newline"])
         check_case(ctx, case)
         if j == 0:
             ctx.sample({"script": "\n".join(case["stmts"]), "undefined_table_statement": case["ghost"], "model": case["model"]})
